@@ -145,33 +145,84 @@ def proof_status(prop_id, theorems):
 # ---------------------------------------------------------------------------
 # running request lines through the two sides
 # ---------------------------------------------------------------------------
-def run_model(lines, timeout=1800):
-    """All lines through the extracted model (sharded over cores)."""
+def _timed(fn):
+    """VERIF_TIMING=1: print what each batch cost (command histogram, seconds) on stderr"""
+    def wrapper(lines, *a, **k):
+        if not os.environ.get("VERIF_TIMING") or not lines:
+            return fn(lines, *a, **k)
+        t0 = time.time()
+        r = fn(lines, *a, **k)
+        cmds = {}
+        for ln in lines:
+            c = ln.split(" ", 1)[0]
+            cmds[c] = cmds.get(c, 0) + 1
+        sys.stderr.write("TIMING %s %.1fs %d lines %d bytes %s\n" % (fn.__name__, time.time() - t0, len(lines), sum(len(l) for l in lines), cmds))
+        return r
+    wrapper.__name__ = fn.__name__
+    return wrapper
+
+
+@_timed
+def run_model(lines, timeout=1800, line_timeout=120):
+    """All lines through the extracted model (sharded over cores).  One answer per line; a line on which the model
+    process dies or stalls is answered 'modelcrash ...' / 'modeltimeout' and the rest of its shard is run in a fresh
+    process, so one bad line never takes other answers with it.  Each process is capped at 3 GB."""
     if not lines:
         return []
+    import threading
     nshard = min(NCPU, max(1, len(lines) // 200))
     shards = [lines[i::nshard] for i in range(nshard)]
-    procs = []
-    for sh_lines in shards:
-        # the extracted code recurses on lists: give it the stack it needs (native stack = ulimit -s)
-        p = subprocess.Popen(["bash", "-c", "ulimit -s unlimited 2>/dev/null || ulimit -s 4000000; exec " + VMODEL],
-                             stdin=subprocess.PIPE, stdout=subprocess.PIPE,
-                             universal_newlines=True, env=dict(os.environ, OCAMLRUNPARAM="l=8G"))
-        procs.append((p, sh_lines))
-    # feed sequentially via communicate in threads
-    import threading
     outs = [None] * nshard
+    deadline = time.time() + timeout
+
+    def start():
+        # the extracted code recurses on lists: give it the stack it needs (native stack = ulimit -s)
+        return subprocess.Popen(["bash", "-c", "ulimit -v 3000000; ulimit -s unlimited 2>/dev/null || ulimit -s 4000000; exec " + VMODEL],
+                                stdin=subprocess.PIPE, stdout=subprocess.PIPE, stderr=subprocess.DEVNULL,
+                                universal_newlines=True, env=dict(os.environ, OCAMLRUNPARAM="l=8G"))
 
     def work(i):
-        p, sl = procs[i]
-        try:
-            o, _ = p.communicate("\n".join(sl) + "\n", timeout=timeout)
-        except subprocess.TimeoutExpired:
-            p.kill()
-            o = ""
-        outs[i] = o.split("\n")
-        if outs[i] and outs[i][-1] == "":
-            outs[i].pop()
+        sl = shards[i]
+        got = []
+        restarts = 0
+        while len(got) < len(sl):
+            todo = sl[len(got):]
+            p = start()
+            feeder = threading.Thread(target=_feed, args=(p, todo))
+            feeder.daemon = True
+            feeder.start()
+            n0 = len(got)
+            last = [time.time()]
+            stalled = [False]
+
+            def watchdog():
+                while p.poll() is None:
+                    time.sleep(1)
+                    if time.time() - last[0] > line_timeout or time.time() > deadline:
+                        stalled[0] = True
+                        p.kill()
+                        return
+            wd = threading.Thread(target=watchdog)
+            wd.daemon = True
+            wd.start()
+            for o in p.stdout:
+                got.append(o.rstrip("\n"))
+                last[0] = time.time()
+                if len(got) - n0 >= len(todo):
+                    break
+            p.stdout.close()
+            try:
+                p.kill()
+            except Exception:
+                pass
+            p.wait()
+            if len(got) < len(sl):
+                # the process ended before answering line len(got): that line is the one it could not do
+                got.append("modeltimeout" if stalled[0] else "modelcrash died")
+                restarts += 1
+                if restarts > 200 or time.time() > deadline:
+                    got += ["modelcrash notrun"] * (len(sl) - len(got))
+        outs[i] = got
 
     ths = [threading.Thread(target=work, args=(i,)) for i in range(nshard)]
     for t in ths:
@@ -180,11 +231,33 @@ def run_model(lines, timeout=1800):
         t.join()
     res = [None] * len(lines)
     for i in range(nshard):
-        o = outs[i]
-        sl = shards[i]
-        for j in range(len(sl)):
-            res[i + j * nshard] = o[j] if j < len(o) else "modelcrash"
+        for j, o in enumerate(outs[i]):
+            res[i + j * nshard] = o
     return res
+
+
+def _feed(p, todo):
+    try:
+        p.stdin.write("\n".join(todo) + "\n")
+        p.stdin.close()
+    except Exception:
+        pass
+
+
+def oracle_silent(ctx, component, line, d):
+    """d is an answer of sdecode_many / tdecode_many.  True when the specification decoder gave no answer for this case
+    ('?...'): that says nothing about ion-go, so it is recorded as a broken tie (never as a failing input) and the
+    caller skips the case."""
+    if isinstance(d, str) and d.startswith("?"):
+        ctx.fail("tie", component, line[:3000], "the specification decoder gave no answer for this case (%s): the oracle is "
+                 "unavailable here, nothing is concluded about the code" % d[1:80])
+        return True
+    return False
+
+
+def model_unanswered(o):
+    """the model process gave no answer for this line (crash, memory cap, stall): never a verdict about the code"""
+    return o is None or o.startswith("modelcrash") or o.startswith("modeltimeout")
 
 
 def _run_go_serial(lines, binary, per_case_timeout, env):
@@ -228,6 +301,7 @@ def _run_go_serial(lines, binary, per_case_timeout, env):
     return res
 
 
+@_timed
 def run_go(lines, binary=None, per_case_timeout=5, extra_env=None, parallel=True):
     if not lines:
         return []
